@@ -700,6 +700,22 @@ func genRawStores(c *genChain) map[string]string {
 				// (a destroyed marker's account) are not re-consumed after an import
 				continue
 			}
+			if m == "attribute" && len(it.Key()) > 9 && it.Key()[0] == 0x04 {
+				// expiration-queue entry: count only LIVE entries (the attribute exists and this is the
+				// entry of its stored expiration). Stale entries (left when an identical attribute is
+				// re-added or a name is purged) are dropped by the sweep without effect since f2249cacd
+				// and are not part of the exported genesis.
+				live := false
+				if bz := ctx.KVStore(key).Get(attrtypes.GetAddrAttributeKeyFromExpireKey(it.Key())); bz != nil {
+					var at attrtypes.Attribute
+					if c.a.AppCodec().Unmarshal(bz, &at) == nil && bytes.Equal(attrtypes.AttributeExpireKey(at), it.Key()) {
+						live = true
+					}
+				}
+				if !live {
+					continue
+				}
+			}
 			if m == "attribute" && len(it.Key()) > 0 && it.Key()[0] == 0x03 {
 				// name->address lookup COUNTERS are derived data: SetAttribute increments the counter
 				// also when it overwrites an identical (account, name, value) attribute (pinned by the
@@ -1028,6 +1044,7 @@ func genCase(t *testing.T, seed uint64, nBlocks int, out *Out) (string, string) 
 					if raw1[m] != raw4[m] && !genRawStoreExempt[m] {
 						bad = append(bad, m+"-store")
 						if testing.Verbose() {
+							fmt.Println("RAWHASH", m, raw1[m], raw4[m])
 							genPrintStoreDiff(c1, c4, m)
 						}
 					}
